@@ -5,6 +5,7 @@ package main
 import (
 	"fmt"
 	"go/types"
+	"path/filepath"
 	"strings"
 
 	"golang.org/x/tools/go/ssa"
@@ -87,6 +88,7 @@ func (x *Exec) callStatic(st *State, i *ssa.Call, callee *ssa.Function, args, bi
 		return
 	}
 	if ext := x.W.FuncSpecs[externKey(callee)]; ext != nil {
+		x.W.Assumes["external function "+externKey(callee)+": assumed contract ("+filepath.Base(ext.File)+"), body not verified"] = true
 		efi := &FuncInfo{Fn: callee, Spec: ext, Key: externKey(callee), Cells: map[string][]*ssa.Alloc{}}
 		rs := x.applyContract(st, i, efi, ext, args, nil)
 		setResult(st, rs)
